@@ -707,23 +707,35 @@ impl Value {
     pub fn get_int(arg: &str) -> Result<MoltInt, Exception> {
         let orig = arg;
         let mut arg = arg.trim();
-        let mut minus = 1;
+        let mut minus = false;
 
         if arg.starts_with('+') {
             arg = &arg[1..];
         } else if arg.starts_with('-') {
-            minus = -1;
+            minus = true;
             arg = &arg[1..];
         }
 
-        let parse_result = if arg.starts_with("0x") {
-            MoltInt::from_str_radix(&arg[2..], 16)
+        let (digits, radix) = if arg.starts_with("0x") {
+            (&arg[2..], 16)
         } else {
-            arg.parse::<MoltInt>()
+            (arg, 10)
+        };
+
+        // Only one sign is allowed, and it has been consumed; parse the digits together
+        // with it so that the full i64 range (including i64::MIN) is accepted.
+        if digits.starts_with('+') || digits.starts_with('-') {
+            return molt_err!("expected integer but got \"{}\"", orig);
+        }
+
+        let parse_result = if minus {
+            MoltInt::from_str_radix(&format!("-{}", digits), radix)
+        } else {
+            MoltInt::from_str_radix(digits, radix)
         };
 
         match parse_result {
-            Ok(int) => Ok(minus * int),
+            Ok(int) => Ok(int),
             Err(_) => molt_err!("expected integer but got \"{}\"", orig),
         }
     }
